@@ -1719,7 +1719,7 @@ def pairings(n):
     Returns:
         int (int): Number of pairings.
     """
-    return math.factorial(n)/(math.factorial(n/2)*2**(n/2))
+    return math.factorial(n)//(math.factorial(n//2)*2**(n//2))
 
 def binom(n,k):
     """
@@ -1781,10 +1781,10 @@ def possible_genotypes_4(n,colors):
     """
     nR,nG,nB,nY = colors
     gl = []
-    for pure_red in range(nR/2+1):
-        for pure_green in range(nG/2+1):
-            for pure_blue in range(nB/2+1):
-                for pure_yellow in range(nY/2+1):
+    for pure_red in range(nR//2+1):
+        for pure_green in range(nG//2+1):
+            for pure_blue in range(nB//2+1):
+                for pure_yellow in range(nY//2+1):
                     mixed_red = nR-2*pure_red
                     mixed_green = nG-2*pure_green
                     mixed_blue = nB-2*pure_blue
@@ -1837,7 +1837,7 @@ def genotype_spectrum_from_F(F):
         G (ndarray): Genotype spectrum.
     """
     n = len(F)-1
-    ng = n/2
+    ng = n//2
     tot = pairings(n)
     G = np.zeros((ng+1,ng+1,ng+1,ng+1,ng+1,ng+1,ng+1,ng+1,ng+1))
     for ii in range(n+1):
@@ -1863,7 +1863,7 @@ def observed_genotype_spectrum_from_F(F):
         G (ndarray): Observed genotype spectrum.
     """
     n = len(F)-1
-    ng = n/2
+    ng = n//2
     G = np.zeros((ng+1,ng+1,ng+1,ng+1,ng+1,ng+1,ng+1,ng+1))
     for ii in range(n+1):
         for jj in range(n+1):
@@ -1891,7 +1891,7 @@ def observed_genotype_spectrum_dict_from_F(F):
     Gdict has keys n (num individuals in sample), observed genotypes
     """
     n = len(F)-1
-    ng = n/2
+    ng = n//2
     Gdict = {}
     Gdict.setdefault(ng,{})
     for ii in range(n+1):
@@ -1974,9 +1974,9 @@ def project_Gdict(G,n_from,n_to):
         weights = projection_cache_Gdict(n_from,n_to,genotypes)
         for projected_gens in weights.keys():
             try:
-                G_to[n_to][projected_gens] += weights[projected_gens]*G[genotypes]
+                G_to[n_to][projected_gens] += weights[projected_gens]*G[n_from][genotypes]
             except KeyError:
-                G_to[n_to][projected_gens] = weights[projected_gens]*G[genotypes]
+                G_to[n_to][projected_gens] = weights[projected_gens]*G[n_from][genotypes]
     return G_to
 
 def misidentification(F,p):
